@@ -22,9 +22,11 @@ type c16Data struct {
 	Kind     string   `json:"kind"` // order | slurp-equiv | raw | stream | malformed | args
 	Scenario Scenario `json:"scenario"`
 	Template int      `json:"template,omitempty"` // order: index into orderTemplates
-	// stream: the untruncated document text and the cut
-	Doc string `json:"doc,omitempty"`
-	Cut int    `json:"cut,omitempty"`
+	// stream: the untruncated document text and the cut; Retain: how the events are consumed
+	// ("" printed one by one, "collect" = -n [inputs], "slurp" = -s ., "pairs" = input as $a | input as $b | ...)
+	Doc    string `json:"doc,omitempty"`
+	Cut    int    `json:"cut,omitempty"`
+	Retain string `json:"retain,omitempty"`
 	// args: the expected output, computed by construction
 	Want string `json:"want,omitempty"`
 }
@@ -598,13 +600,53 @@ func judgeStream(d *c16Data, res Result) *kernel.Violation {
 	items := streamEvents(sc.Stdin)
 	var want strings.Builder
 	errs := 0
+	var evs []any
 	for _, it := range items {
 		if it.isErr {
 			errs++
 			continue
 		}
+		evs = append(evs, it.val)
 		want.WriteString(Render(it.val, true, "", 0))
 		want.WriteString("\n")
+	}
+	if d.Retain != "" {
+		// the events are retained by the consumer while later ones are produced: an event must not
+		// change after it has been delivered
+		want.Reset()
+		switch {
+		case errs > 0 && d.Retain != "pairs":
+		case d.Retain == "pairs":
+			// input as $a | input as $b | [$a, $b], then the rest one by one
+			if len(evs) >= 2 {
+				want.WriteString(Render([]any{evs[0], evs[1]}, true, "", 0) + "\n")
+				want.WriteString(Render(arr(evs[2:]), true, "", 0) + "\n")
+			}
+			if len(evs) < 2 || errs > 0 {
+				errs = 1
+				if len(evs) >= 2 {
+					// the error surfaces while collecting the rest: the pair was already printed
+					want.Reset()
+					want.WriteString(Render([]any{evs[0], evs[1]}, true, "", 0) + "\n")
+				}
+			}
+		default:
+			want.WriteString(Render(arr(evs), true, "", 0) + "\n")
+		}
+		if errs > 0 {
+			errs = 1
+		}
+		if res.Stdout != want.String() {
+			return c16viol(d, "stream-retained", "document %q cut at %d, events retained (%s): output differs from the event model\n got: %q\nwant: %q", kernel.Short2(d.Doc, 200), d.Cut, d.Retain, kernel.Short2(res.Stdout, 500), kernel.Short2(want.String(), 500))
+		}
+		wantExit := 0
+		if errs > 0 {
+			wantExit = 5
+		}
+		if res.Exit != wantExit {
+			return c16viol(d, "stream-status", "document %q cut at %d, events retained (%s): exit %d, expected %d", kernel.Short2(d.Doc, 200), d.Cut, d.Retain, res.Exit, wantExit)
+		}
+		return nil
 	}
 	if res.Stdout != want.String() {
 		return c16viol(d, "stream-events", "document %q cut at %d: the events differ from the event model of the delivered text\n got: %q\nwant: %q", kernel.Short2(d.Doc, 200), d.Cut, kernel.Short2(res.Stdout, 500), kernel.Short2(want.String(), 500))
@@ -837,6 +879,29 @@ func (C16) RunUnit(env *kernel.Env, unit int) {
 				}
 				if v != nil {
 					break
+				}
+			}
+			// the same text with the events retained by the consumer
+			if cut == len(doc) || cut%3 == 0 {
+				for _, retain := range []string{"collect", "slurp", "pairs"} {
+					d := c16Data{Kind: "stream", Doc: doc, Cut: cut, Retain: retain}
+					sc := &d.Scenario
+					sc.WriteFail = -1
+					sc.Stdin = doc[:cut]
+					switch retain {
+					case "collect":
+						sc.Flags, sc.Query = []string{"-c", "--stream", "-n"}, "[inputs]"
+					case "slurp":
+						sc.Flags, sc.Query = []string{"-c", "--stream", "-s"}, "."
+					default:
+						sc.Flags, sc.Query = []string{"-c", "--stream", "-n"}, "input as $a | input as $b | [$a, $b], [inputs]"
+					}
+					sc.Plan, sc.PlanClass = simio.GenPlan(r, len(sc.Stdin), []int{max(0, cut-1)})
+					out.Mark(kernel.NewCase("C16", d.Kind, d))
+					res := sc.Run()
+					v := judgeC16(&d, res)
+					record(&d, res, v)
+					out.Inc("stream_events_retained_" + retain)
 				}
 			}
 		}
